@@ -425,3 +425,89 @@ Proof.
   split; [vm_compute; reflexivity|]. split; [vm_compute; reflexivity|].
   vm_compute. repeat split; try reflexivity. discriminate.
 Qed.
+
+(** (A3, strong form) outside [tau] the inverse part of a class entry of the
+    run on [g] and the direct part of the class entry of the run on the
+    reversed graph are EQUAL AS DICTIONARIES: same keys in the same order at
+    the three levels (property, type key, cardinality), same numbers.  The
+    order matters because the shexing stage iterates over the dictionaries and
+    its sorts are stable; it coincides because the reversal keeps the document
+    order of the triples. *)
+Theorem C14_inverse_is_reverse_entries : forall cfg (I : insts) g ID P1 C0 ID' P1' C0',
+  NoDup (dkeys I) -> iri_nodes (p_tau cfg) g ->
+  annotate_all (p_tau cfg) true g (adapt I) = inl ID ->
+  raw_profile (set_inverse cfg true) I ID = (P1, C0) ->
+  annotate_all (p_tau cfg) false (reverse_nonliteral (p_tau cfg) g) (adapt I) = inl ID' ->
+  raw_profile (set_inverse cfg false) I ID' = (P1', C0') ->
+  forall c e e', dget P1 c = Some e -> dget P1' c = Some e' ->
+    filter (fun pe => negb (str_eqb (fst pe) (p_tau cfg))) (c_inverse e) =
+    filter (fun pe => negb (str_eqb (fst pe) (p_tau cfg))) (c_direct e').
+Proof. exact raw_profile_inverse_is_reverse_eq. Qed.
+Print Assumptions C14_inverse_is_reverse_entries.
+
+(** the tracker reads typing triples only: the instance dictionary of the
+    reversed graph is that of the graph, so "instances from [g], features from
+    the reversed graph" is the plain run on the reversed graph *)
+Theorem C14_track_reverse : forall tau m cap g,
+  track tau m cap (reverse_nonliteral tau g) = track tau m cap g.
+Proof. exact track_reverse. Qed.
+Print Assumptions C14_track_reverse.
+
+Theorem C14_run_shapes2_reverse : forall fa c (thr : F fa) g,
+  Run2.run_shapes2 fa c thr g (reverse_nonliteral (r_tau c) g) =
+  run_shapes fa c thr (reverse_nonliteral (r_tau c) g).
+Proof. exact run_shapes2_reverse. Qed.
+
+(** (A4) statement level, remove_empty_shapes off, [iri_nodes]: when the run
+    with inverse paths on [g] and the run without inverse paths that reads the
+    instances from [g] and the features from the reversed graph both succeed,
+    they produce the same shapes prefix and, shape by shape in the same order,
+    the same label, class and instance count, and the INCOMING constraints of
+    the first for the properties other than [tau] are EXACTLY the OUTGOING
+    constraints of the second for those properties with the direction flag
+    set: same order, same keys, cardinalities, figures and comments. *)
+Theorem C14_inverse_is_reverse_statements : forall c thr g ns st ns' sr,
+  r_remove_empty c = false -> iri_nodes (r_tau c) g ->
+  Run2.run_shapes2 BAlg (rwith_inverse true c) thr g g = inl (ns, st) ->
+  Run2.run_shapes2 BAlg (rwith_inverse false c) thr g (reverse_nonliteral (r_tau c) g) = inl (ns', sr) ->
+  ns' = ns /\
+  Forall2 (fun sh_t sh_r =>
+    sh_name sh_t = sh_name sh_r /\ sh_class sh_t = sh_class sh_r /\ sh_n sh_t = sh_n sh_r /\
+    filter (fun s => s_inv s && negb (str_eqb (s_prop s) (r_tau c))) (sh_stmts sh_t) =
+    map set_inv (filter (fun s => negb (str_eqb (s_prop s) (r_tau c))) (sh_stmts sh_r))) st sr.
+Proof.
+  intros c thr g ns st ns' sr Hre Hg Ht Hr.
+  change (r_tau c) with (r_tau (rwith_inverse false c)) in Hr at 1. rewrite run_shapes2_reverse in Hr.
+  exact (run_inverse_is_reverse BAlg c thr g ns st ns' sr order_at_BAlg Hre Hg Ht Hr).
+Qed.
+Print Assumptions C14_inverse_is_reverse_statements.
+
+(** for any algebra whose [fle] is a total preorder at every class size *)
+Theorem C14_inverse_is_reverse_statements_alg : forall fa c (thr : F fa) g ns st ns' sr,
+  (forall n, order_at fa n) -> r_remove_empty c = false -> iri_nodes (r_tau c) g ->
+  run_shapes fa (rwith_inverse true c) thr g = inl (ns, st) ->
+  run_shapes fa (rwith_inverse false c) thr (reverse_nonliteral (r_tau c) g) = inl (ns', sr) ->
+  ns' = ns /\ Forall2 (inverse_is_reverse (r_tau c)) st sr.
+Proof. exact run_inverse_is_reverse. Qed.
+Print Assumptions C14_inverse_is_reverse_statements_alg.
+
+From Shexer Require Import Proofs.EndToEnd.
+
+(** non-vacuity of (A4) on the IRI-only graph [rv_G] above (remove_empty_shapes
+    off): both runs succeed, each shape of the run with inverse paths has
+    incoming constraints outside [tau], and they are the outgoing constraints
+    of the reversed run with the flag set *)
+Definition rv_rcfg : rcfg := rwith_inverse true (EndToEnd.with_remove_empty false base_rcfg).
+
+Example C14_inverse_is_reverse_statements_nonvacuous :
+  exists ns st sr,
+    r_tau rv_rcfg = rv_tau /\
+    Run2.run_shapes2 BAlg (rwith_inverse true rv_rcfg) thr0 rv_G rv_G = inl (ns, st) /\
+    Run2.run_shapes2 BAlg (rwith_inverse false rv_rcfg) thr0 rv_G (reverse_nonliteral rv_tau rv_G) = inl (ns, sr) /\
+    map (fun sh => List.length (filter (fun s => s_inv s && negb (str_eqb (s_prop s) rv_tau)) (sh_stmts sh))) st = [2; 1]%nat /\
+    map (fun sh => filter (fun s => s_inv s && negb (str_eqb (s_prop s) rv_tau)) (sh_stmts sh)) st =
+    map (fun sh => map set_inv (filter (fun s => negb (str_eqb (s_prop s) rv_tau)) (sh_stmts sh))) sr.
+Proof.
+  do 3 eexists. split; [vm_compute; reflexivity|]. split; [vm_compute; reflexivity|].
+  split; [vm_compute; reflexivity|]. split; vm_compute; reflexivity.
+Qed.
